@@ -30,7 +30,7 @@ theorem ceilDiv_step {a b : Nat} (hb : 0 < b) (ha : 0 < a) : ceilDiv (a - min a 
 theorem ceilDiv_le {a b : Nat} (hb : 0 < b) : ceilDiv a b ≤ a := by
   unfold ceilDiv
   rcases Nat.eq_zero_or_pos a with h | h
-  · subst h; simp; exact Nat.div_eq_of_lt (by omega)
+  · subst h; simp <;> omega
   · have : (a + b - 1) / b < a + 1 := by
       apply (Nat.div_lt_iff_lt_mul hb).2
       have : a * 1 ≤ a * b := Nat.mul_le_mul_left a hb
@@ -71,6 +71,8 @@ structure FrInv (c : Cfg) (image0 : List Nat) (bound : Nat) (s : St) : Prop wher
   frames : ∀ fr ∈ s.frames, FrameOk c fr
   dc : DcOk c s
   outs : s.image.drop c.readLen = image0.drop c.readLen
+  unsent : s.image.drop s.sent = image0.drop s.sent
+  sentData : lrwData s.frames = image0.take s.sent
   count : s.frames.length + Phi c s ≤ bound
 
 theorem FrameGood.ok {c : Cfg} {s : St} {fr : Frame} (h : FrameGood c s fr) : FrameOk c fr :=
@@ -120,12 +122,15 @@ theorem phi_advance {c : Cfg} {s s' : St} {n : Nat} (h : CfgOk c n) {fr : Frame}
     ceilDiv_mono _ (by omega)
   unfold Phi
   by_cases hd : needDc c s = true
-  · have hd' : needDc c s' = false := by simp [needDc, htr, hd]
+  · have hd' : needDc c s' = false := by
+      show (c.dc.isSome && !s'.timeRead) = false
+      rw [htr, hd]; simp
     simp only [hd, hd', if_true]
     simp; omega
   · have hdf : needDc c s = false := by simpa using hd
     have hd' : needDc c s' = false := by
-      simp only [needDc, htr, hdf, Bool.or_false]; exact hdf
+      show (c.dc.isSome && !s'.timeRead) = false
+      rw [htr, hdf, Bool.or_false]; exact hdf
     have hu0 : u0 c s = 0 := by simp [u0, hdf]
     simp only [hdf, hd']
     by_cases hr : remOf s = 0
@@ -138,8 +143,9 @@ theorem phi_advance {c : Cfg} {s s' : St} {n : Nat} (h : CfgOk c n) {fr : Frame}
       have hsub : s.subs ≠ [] := by
         intro e; apply hne; simp [planDescs, hdc, lrwDescs, hr, e]
       have hpos : 0 < s.subs.length := List.length_pos_iff.2 hsub
+      have hu1 : u1 c s = 0 := by simp [u1, hr, hu0]
       have ht : tOf c s = min s.subs.length (perFrame c) := by
-        simp only [tOf, checksFit, u1, hr, hu0, perFrame]; omega
+        unfold tOf checksFit perFrame; rw [hu1]; omega
       have := ceilDiv_step hK hpos
       rw [hlen, ht]
       simp; omega
@@ -149,18 +155,59 @@ theorem phi_advance {c : Cfg} {s s' : St} {n : Nat} (h : CfgOk c n) {fr : Frame}
       rw [hrem, if_neg hr, hk]
       simp; omega
 
+theorem DcOk.snoc {c : Cfg} {s s' : St} {fr : Frame} (hdc : DcOk c s) (hfr : s'.frames = s.frames ++ [fr])
+    (hd : fr.dgrams.map desc = planDescs c s) (htr : s'.timeRead = (s.timeRead || needDc c s)) : DcOk c s' := by
+  have hdescs : allDescs s'.frames = allDescs s.frames ++ planDescs c s := by
+    rw [hfr, allDescs_append, allDescs_single, hd]
+  unfold DcOk at hdc ⊢
+  cases hd : c.dc with
+  | none =>
+    rw [hd] at hdc
+    have hnd : needDc c s = false := by simp [needDc, hd]
+    have hdn : dcDescs c s = [] := by simp [dcDescs, hd]
+    refine ⟨by rw [htr, hdc.1, hnd]; rfl, ?_⟩
+    intro d hdm; rw [hdescs] at hdm
+    rcases List.mem_append.1 hdm with h | h
+    · exact hdc.2 d h
+    · simp only [planDescs, hdn, List.nil_append] at h; exact plan_rest_not_frmw c s d h
+  | some ref =>
+    rw [hd] at hdc
+    simp only
+    cases htr0 : s.timeRead with
+    | false =>
+      rw [htr0] at hdc; simp only [Bool.false_eq_true, if_false] at hdc
+      have hnd : needDc c s = true := by simp [needDc, hd, htr0]
+      have hdn : dcDescs c s = [frmwDesc ref] := by simp [dcDescs, hd, htr0, frmwDesc, le64, le32]
+      rw [htr, htr0, hnd]; simp only [Bool.false_or, if_true]
+      refine ⟨lrwDescs c s ++ (s.subs.take (tOf c s)).map fprdDesc, ?_, plan_rest_not_frmw c s⟩
+      rw [hdescs, hdc]; simp [allDescs, allDgrams, planDescs, hdn]
+    | true =>
+      rw [htr0] at hdc; simp only [if_true] at hdc
+      obtain ⟨rest, hrest, hnf⟩ := hdc
+      have hnd : needDc c s = false := by simp [needDc, htr0]
+      have hdn : dcDescs c s = [] := by simp [dcDescs, hd, htr0]
+      rw [htr, htr0]; simp only [Bool.true_or, if_true]
+      refine ⟨rest ++ (lrwDescs c s ++ (s.subs.take (tOf c s)).map fprdDesc), ?_, ?_⟩
+      · rw [hdescs, hrest]; simp [planDescs, hdn]
+      · intro d hdm
+        rcases List.mem_append.1 hdm with h | h
+        · exact hnf d h
+        · exact plan_rest_not_frmw c s d h
+
 theorem FrInv.advance {c : Cfg} {image0 : List Nat} {bound : Nat} {s s' : St} (hc : CfgOk c image0.length)
     (hi : FrInv c image0 bound s) (ha : Advance c s s') : FrInv c image0 bound s' := by
   have hs : s.sent ≤ s.image.length := by rw [hi.len]; exact hi.sent
   have hc' : CfgOk c s.image.length := by rw [hi.len]; exact hc
-  obtain ⟨fr, r, hg, hfr, hresp, hsubs, hchk, hlen, hdrop, hsent, htr⟩ := advance_facts hs ha
+  obtain ⟨fr, r, hg, hfr, hresp, hsubs, hchk, hlen, hdrop, hsent, htr, hunsent⟩ := advance_facts hs ha
   have hk := kOf_le c s
   have ht := tOf_le c s
+  have hsent0 := hi.sent
+  have hchk0 := hi.checks
   have hsl : s.subs.length = c.addrs.length - s.checks := by rw [hi.subs]; simp
   have hremS : remOf s = image0.length - s.sent := by unfold remOf; rw [hi.len]
   have hdescs : allDescs s'.frames = allDescs s.frames ++ planDescs c s := by
     rw [hfr, allDescs_append, allDescs_single, hg.descs]
-  refine ⟨by rw [hlen, hi.len], ?_, by omega, ?_, ?_, ?_, ?_, ?_, by rw [hdrop, hi.outs], ?_⟩
+  refine ⟨by rw [hlen, hi.len], ?_, by rw [hchk]; omega, ?_, ?_, ?_, ?_, ?_, by rw [hdrop, hi.outs], ?_, ?_, ?_⟩
   · -- sent
     rw [hsent]; split <;> omega
   · -- subs
@@ -183,44 +230,24 @@ theorem FrInv.advance {c : Cfg} {image0 : List Nat} {bound : Nat} {s s' : St} (h
     · exact hi.frames f h
     · simp at h; subst h; exact hg.ok
   · -- clock datagram
-    have hdc := hi.dc
-    unfold DcOk at hdc ⊢
-    cases hd : c.dc with
-    | none =>
-      rw [hd] at hdc
-      have hnd : needDc c s = false := by simp [needDc, hd]
-      have hdn : dcDescs c s = [] := by simp [dcDescs, hd]
-      refine ⟨by rw [htr, hdc.1, hnd]; rfl, ?_⟩
-      intro d hdm; rw [hdescs] at hdm
-      rcases List.mem_append.1 hdm with h | h
-      · exact hdc.2 d h
-      · simp only [planDescs, hdn, List.nil_append] at h; exact plan_rest_not_frmw c s d h
-    | some ref =>
-      rw [hd] at hdc
-      simp only
-      cases htr0 : s.timeRead with
-      | false =>
-        rw [htr0] at hdc; simp only [Bool.false_eq_true, if_false] at hdc
-        have hnd : needDc c s = true := by simp [needDc, hd, htr0]
-        have hdn : dcDescs c s = [frmwDesc ref] := by simp [dcDescs, hd, htr0, frmwDesc, le64, le32]
-        rw [htr, htr0, hnd]; simp only [Bool.false_or, if_true]
-        refine ⟨lrwDescs c s ++ (s.subs.take (tOf c s)).map fprdDesc, ?_, plan_rest_not_frmw c s⟩
-        rw [hdescs, hdc]; simp [allDescs, allDgrams, planDescs, hdn]
-      | true =>
-        rw [htr0] at hdc; simp only [if_true] at hdc
-        obtain ⟨rest, hrest, hnf⟩ := hdc
-        have hnd : needDc c s = false := by simp [needDc, htr0]
-        have hdn : dcDescs c s = [] := by simp [dcDescs, hd, htr0]
-        rw [htr, htr0]; simp only [Bool.true_or, if_true]
-        refine ⟨rest ++ (lrwDescs c s ++ (s.subs.take (tOf c s)).map fprdDesc), ?_, ?_⟩
-        · rw [hdescs, hrest]; simp [planDescs, hdn]
-        · intro d hdm
-          rcases List.mem_append.1 hdm with h | h
-          · exact hnf d h
-          · exact plan_rest_not_frmw c s d h
+    exact hi.dc.snoc hfr hg.descs htr
+  · -- the part of the image not yet sent is as the application wrote it
+    rw [hunsent, hsent, ← List.drop_drop, hi.unsent, List.drop_drop]
+  · -- what was sent is what the application wrote
+    unfold lrwData; rw [hdescs, List.filterMap_append, plan_lrwData, List.flatten_append]
+    have := hi.sentData; unfold lrwData at this
+    rw [this, hsent]
+    by_cases hr : remOf s = 0
+    · simp [hr]
+    · simp only [hr, if_false, List.flatten_cons, List.flatten_nil, List.append_nil]
+      rw [hi.unsent, List.take_add]
   · -- frame count
     have hrem' : remOf s' = remOf s - (if remOf s = 0 then 0 else kOf c s) := by
-      unfold remOf; rw [hlen, hsent]; unfold remOf at hk; split <;> omega
+      have e1 : remOf s' = s.image.length - s'.sent := by unfold remOf; rw [hlen]
+      rw [e1, hsent]
+      by_cases hr : remOf s = 0
+      · rw [if_pos hr]; unfold remOf; omega
+      · rw [if_neg hr]; unfold remOf; omega
     have := phi_advance hc hg hrem' hsubs htr
     have := hi.count
     rw [hfr]; simp; omega
